@@ -347,6 +347,16 @@ def run_kamax(case: Dict[str, Any]) -> CaseInfo:
             if n > r and acct.goaway is None:
                 raise Violation("limit_not_announced", f"{n} requests with limit {r}: no GOAWAY",
                                 **tag)
+            # "served": every request the server took on (and, when it said so, covered by the
+            # last-stream-id of its GOAWAY) is answered in full
+            for k in range(len(obs.instances)):
+                sid = 1 + 2 * k
+                st_ = acct.streams.get(sid)
+                if st_ is None or bytes(st_.data) != b"ok" or st_.end_stream != 1:
+                    raise Violation("request_taken_on_not_answered", f"request {k} (stream {sid}) "
+                                    f"reached the application but its response is "
+                                    f"{st_ and (bytes(st_.data), st_.end_stream, st_.rst)}; "
+                                    f"limit {r}, goaway {acct.goaway}", **tag)
     return CaseInfo(abs(n - r) <= 1, [f"proto={case['proto']}", f"r={r}", f"n={n}"], evals=2)
 
 
